@@ -1,6 +1,7 @@
 import Blots.Lemmas.EvalEnvCall
 import Blots.Lemmas.EvalEnvFree
 import Blots.Lemmas.EvalEnvCoin
+import Blots.Lemmas.EvalEnvClosedCoin
 /-
   C04 — Closures capture definition-time values; calls are call-site independent.
 
@@ -24,20 +25,22 @@ theorem freeVars_sound (e : Expr) (bound : List String) (x : String) (h : noOutp
   freeVars_iff e bound x h
 
 /-- hence what a new function captures, declaratively: the names free in its body that are
-    not parameters, not built-in names, and visible at that moment — with their values then -/
+    not parameters and are visible at that moment — with their values then.  (Since the repair
+    of defect D3, section 6, also names spelled like a built-in function, which can be free
+    only through the record shorthand `{sqrt}`.) -/
 theorem capture_is_free_names_bound_now (env : List Frame) (ps : List LArg) (body : Expr) (x : String)
     (h : noOutput body = true) :
-    (FreeIn x body ∧ x ∉ ps.map LArg.name ∧ isBuiltinIdent x = false →
+    (FreeIn x body ∧ x ∉ ps.map LArg.name →
       lookupAL x (captureScope env (freeVars (ps.map LArg.name) body)) = envGet env x) ∧
-    (¬ (FreeIn x body ∧ x ∉ ps.map LArg.name ∧ isBuiltinIdent x = false) →
+    (¬ (FreeIn x body ∧ x ∉ ps.map LArg.name) →
       lookupAL x (captureScope env (freeVars (ps.map LArg.name) body)) = none) := by
   rw [captureScope_lookup]
   have := freeVars_iff body (ps.map LArg.name) x h
   constructor
   · intro h'
-    rw [if_pos ⟨this.mpr ⟨h'.1, h'.2.1⟩, h'.2.2⟩]
+    rw [if_pos (this.mpr ⟨h'.1, h'.2⟩)]
   · intro h'
-    rw [if_neg (fun hc => h' ⟨(this.mp hc.1).1, (this.mp hc.1).2, hc.2⟩)]
+    rw [if_neg (fun hc => h' ⟨(this.mp hc).1, (this.mp hc).2⟩)]
 
 /-- the hypothesis `noOutput` is needed: on ASTs the grammar cannot produce, the function
     misses reads under `output` -/
@@ -53,15 +56,14 @@ example : freeVars [] (.doBlock [it (.assign "y" (.ident "x"))] (it (.bin .add (
 
 /-- creating a function (no parameter is called `inputs`): the result is a function value with
     a fresh id whose scope maps exactly the free names of the body (w.r.t. the parameters) that
-    are visible NOW and are not built-in names to their CURRENT values; nothing else of the
-    state changes -/
+    are visible NOW to their CURRENT values; nothing else of the state changes -/
 theorem capture_by_value (ops : NumOps) (fuel depth : Nat) (ps : List LArg) (body : Expr) (s : ES)
     (hps : ps.any (fun a => a.name == "inputs") = false) :
     ∃ scope, eval ops (fuel + 1) depth (.lambda ps body) s =
         (.ok (.lambda s.nextId ps body scope), { s with nextId := s.nextId + 1 }) ∧
       (scope.map Prod.fst).Nodup ∧
       ∀ x, lookupAL x scope =
-        if x ∈ freeVars (ps.map LArg.name) body ∧ isBuiltinIdent x = false then envGet s.env x else none := by
+        if x ∈ freeVars (ps.map LArg.name) body then envGet s.env x else none := by
   refine ⟨captureScope s.env (freeVars (ps.map LArg.name) body), ?_, captureScope_nodup _ _, ?_⟩
   · rw [eval, if_neg (by simp [hps])]
   · intro x; exact captureScope_lookup _ _ x
@@ -275,10 +277,10 @@ example : checkArity (lambdaArity [.opt "a", .req "b"]) 1 = .ok () ∧
 example : [LArg.req "x"].any (fun a => a.name == "inputs") = false ∧
     [LArg.req "x", LArg.opt "inputs"].any (fun a => a.name == "inputs") = true := by decide
 
-/-- `y = 1; f = (x) => x + y` captures y ↦ 1 and not `x`; a built-in name is not captured -/
-example : (eval toyOps 1 0 (.lambda [.req "x"] (.bin .add (.ident "x") (.bin .add (.ident "y") (.ident "sqrt"))))
-      { root0 with env := [[("y", .num F64.one), ("x", .null), ("sqrt", .null)]] }).1
-    = .ok (.lambda 1 [.req "x"] (.bin .add (.ident "x") (.bin .add (.ident "y") (.ident "sqrt")))
+/-- `y = 1; f = (x) => x + y + z` captures y ↦ 1, not the parameter `x`, not the unbound `z` -/
+example : (eval toyOps 1 0 (.lambda [.req "x"] (.bin .add (.ident "x") (.bin .add (.ident "y") (.ident "z"))))
+      { root0 with env := [[("y", .num F64.one), ("x", .null)]] }).1
+    = .ok (.lambda 1 [.req "x"] (.bin .add (.ident "x") (.bin .add (.ident "y") (.ident "z")))
         [("y", .num F64.one)]) := by
   simp +decide [eval, freeVars, captureScope, LArg.name, root0, envGet, lookupAL, insertAL]
 
@@ -302,11 +304,13 @@ example : ¬ (reqCount [.req "x"] ≤ 0 ∧ (hasRest [.req "x"] = true ∨ 0 ≤
 
 /-! #### 5. call-site independence -/
 
-/-- FULL STATEMENT (proved for `plain` bodies: `call_site_independent_plain`; for arbitrary bodies
-    only the step at the call: `call_site_independent_partial`): a function closed after
-    capture returns the same outcome for the same arguments from every call site (two states
-    with the same id counter, display names and `inputs`), at the same call depth.  (Before
-    the fixes of expressions.rs found with this check it was false: see (D1), (D2) below.) -/
+/-- THE LITERAL STATEMENT — it is FALSE (`call_site_independent_statement_false` in section 6): a
+    function whose own free names are all bound at definition (`ClosedFn`) is still call-site
+    dependent when a function it captured has an unbound free name (late binding, read from the
+    caller's frames).  The exactly-true version is `call_site_independent` (section 6):
+    closedness must hold hereditarily (`ClosedV`).  Kept: the step at the call for arbitrary
+    bodies (`call_site_independent_partial`) and the version for bodies that never apply a
+    function value (`call_site_independent_plain`). -/
 def call_site_independent_statement : Prop :=
   ∀ (ops : NumOps) (fuel id : Nat) (ps : List LArg) (body : Expr) (scope : Frame) (this : Value)
     (args : List Value) (depth : Nat) (s s' : ES),
@@ -479,5 +483,177 @@ example :
       = .err .keyword := by
   constructor <;>
   simp +decide [eval, evalDo, evalDoStmt, it, root0, LArg.name]
+
+/-! #### 6. call-site independence through arbitrary nested calls -/
+
+/-- CALL-SITE INDEPENDENCE, in full.  `ClosedV N v` (Lemmas/EvalEnvClosed.lean): every function
+    value inside `v` — also inside captured scopes, lists, records — is closed after capture
+    w.r.t. the display names `N` (`ClosedFn`: each free name of its body is a parameter, a
+    captured name, the function's own display name, or `inputs`), its body has no nested
+    `output` (`noOutput`, as in `freeVars_sound`: the grammar only produces `output` as a whole
+    statement), and its captured values are closed in the same sense.
+
+    A closed function value called with closed arguments from two callers `s`, `s'` that agree
+    on the id counter, the display names and the value of `inputs` (closed), at the same fuel
+    and call depth, gives the SAME OUTCOME and the same final state except for the environment,
+    which is each caller's own.  NOTHING is assumed of the two callers' environments: they may
+    rebind the captured names, the parameter names, the function's own name, to any values
+    (closed or not), in any number of frames.  Covers every way the body can run other
+    functions: calls of parameters / captured / created functions, recursion through the self
+    name, `via` / `into` / `where`, `map` / `filter` / `reduce` / `every` / `some` / `sort_by` /
+    `group_by` / `count_by`; nested function creation; assignments and do-blocks in the body.
+    (`this` is the value bound to the function's own name: the evaluator always passes `fv`.)
+    Equal id counters are required because results may contain newly created function values,
+    whose ids are drawn from the counter. -/
+theorem call_site_independent (ops : NumOps) (fuel : Nat) (fv this : Value) (args : List Value) (depth : Nat)
+    (s s' : ES) (hid : s.nextId = s'.nextId) (hnames : s.names = s'.names)
+    (hin : envGet s.env "inputs" = envGet s'.env "inputs")
+    (hinC : ∀ v, envGet s.env "inputs" = some v → ClosedV s.names v)
+    (hf : ClosedV s.names fv) (ht : ClosedV s.names this) (ha : ClosedL s.names args) :
+    callFn ops fuel fv this args depth s' =
+      ((callFn ops fuel fv this args depth s).1,
+       { (callFn ops fuel fv this args depth s).2 with env := s'.env }) :=
+  callFn_site_independent ops fuel fv this args depth s s' hid hnames hin hinC hf ht ha
+
+/-- in particular the outcomes agree -/
+theorem call_site_independent_outcome (ops : NumOps) (fuel : Nat) (fv this : Value) (args : List Value)
+    (depth : Nat) (s s' : ES) (hid : s.nextId = s'.nextId) (hnames : s.names = s'.names)
+    (hin : envGet s.env "inputs" = envGet s'.env "inputs")
+    (hinC : ∀ v, envGet s.env "inputs" = some v → ClosedV s.names v)
+    (hf : ClosedV s.names fv) (ht : ClosedV s.names this) (ha : ClosedL s.names args) :
+    (callFn ops fuel fv this args depth s).1 = (callFn ops fuel fv this args depth s').1 := by
+  rw [callFn_site_independent ops fuel fv this args depth s s' hid hnames hin hinC hf ht ha]
+
+/-- "a function all of whose free names were bound at definition" is closed: evaluating
+    `(ps) => body` (no nested `output`) in an environment of closed values gives a closed function value —
+    w.r.t. any later display names `N'` — when each free name of the body that is not a
+    parameter is bound at that moment, is `inputs`, or is the display name the function gets
+    (recursion: `f = (n) => … f(n - 1) …`) -/
+theorem created_function_is_closed (ops : NumOps) (fuel depth : Nat) (ps : List LArg) (body : Expr) (s s1 : ES)
+    (v : Value) (N' : List (Nat × String)) (hN : NamesLe s.names N') (hw : noOutput body = true)
+    (hE : ClosedE s.names s.env)
+    (hfree : ∀ x, FreeIn x body → x ∉ ps.map LArg.name →
+      x = "inputs" ∨ (envGet s.env x).isSome ∨ nameOf N' s.nextId = some x)
+    (h : eval ops fuel depth (.lambda ps body) s = (.ok v, s1)) : ClosedV N' v :=
+  created_closed ops fuel depth ps body s s1 v N' hN hw hE hfree h
+
+/-- the coincidence lemma behind it, for one expression at call depth > 0: with the frames below
+    the first `n` replaced by any others, an expression without nested `output` evaluated in an environment of
+    closed values, whose free names are `inputs` or bound in the first `n` frames (`InTop`) and
+    for which `inputs` resolves identically, runs identically (same outcome, same final state
+    with the same replacement); the result value and environment are closed again, the display
+    names only grew -/
+theorem coincidence_closed (ops : NumOps) (fuel depth : Nat) (e : Expr) (n : Nat) (tl' : List Frame) (s : ES)
+    (hd : 0 < depth) (hn : 0 < n) (hk : n ≤ s.env.length) (hin : Agree n tl' s.env "inputs")
+    (hE : ClosedE s.names s.env) (hw : noOutput e = true)
+    (hF : ∀ x, FreeIn x e → x = "inputs" ∨ InTop n s.env x) :
+    eval ops fuel depth e (retail n tl' s) =
+        ((eval ops fuel depth e s).1, retail n tl' (eval ops fuel depth e s).2) ∧
+      NamesLe s.names (eval ops fuel depth e s).2.names ∧
+      ClosedE (eval ops fuel depth e s).2.names (eval ops fuel depth e s).2.env ∧
+      ∀ v, (eval ops fuel depth e s).1 = .ok v → ClosedV (eval ops fuel depth e s).2.names v := by
+  obtain ⟨h1, h2⟩ := (coin ops tl' fuel).eval depth e n s hd hn ⟨hk, hin, hE⟩ hw hF
+  exact ⟨h1, h2.names, h2.cl, h2.val⟩
+
+/-- `ClosedFn` can be checked by computation: the free names are the list `freeVars [] body` -/
+theorem closedFn_checkable (names : List (Nat × String)) (id : Nat) (ps : List LArg) (body : Expr) (scope : Frame)
+    (hno : noOutput body = true)
+    (hall : ∀ x ∈ freeVars [] body, x ∈ ps.map LArg.name ∨ (lookupAL x scope).isSome ∨ nameOf names id = some x ∨
+      x = "inputs") : ClosedFn names id ps body scope :=
+  closedFn_of_freeVars hno hall
+
+/-- THE LITERAL STATEMENT IS FALSE: `f = (a) => g(a)` captured `g = (x) => y`, whose `y` was not
+    bound when `g` was created (late binding).  Every free name of `f` (`a`, `g`) was bound at
+    its definition, yet `f(null)` fails with "unknown identifier" where the caller does not bind
+    `y` and returns the caller's `y` where it does.  Blots source:
+      g = (x) => y ; f = (a) => g(a) ; f(null) --> error ; h = (y) => f(null) ; h(true) --> true -/
+theorem call_site_independent_statement_false : ¬ call_site_independent_statement := by
+  intro h
+  have h1 := h toyOps 20 1 [.req "a"] (.call (.ident "g") [.ident "a"]) [("g", C04Ex.lateG)] C04Ex.lateF [.null] 0
+    root0 { root0 with env := [[("y", .bool true)]] } rfl rfl rfl
+    (closedFn_of_freeVars (by decide) (by decide))
+  have e1 : (callFn toyOps 20 C04Ex.lateF C04Ex.lateF [.null] 0 root0).1 = .err .unknownIdent := by
+    simp +decide [C04Ex.lateF, C04Ex.lateG, callFn, eval, evalItems, evalList, it, checkArity, lambdaArity,
+      Gen.Arity.canAccept, MAX_DEPTH, nameOf, bindParams, bindParams.go, root0, envGet, lookupAL, insertAL,
+      flattenSpreads, Value.isCallable]
+  have e2 : (callFn toyOps 20 C04Ex.lateF C04Ex.lateF [.null] 0 { root0 with env := [[("y", .bool true)]] }).1 =
+      .ok (.bool true) := by
+    simp +decide [C04Ex.lateF, C04Ex.lateG, callFn, eval, evalItems, evalList, it, checkArity, lambdaArity,
+      Gen.Arity.canAccept, MAX_DEPTH, nameOf, bindParams, bindParams.go, root0, envGet, lookupAL, insertAL,
+      flattenSpreads, Value.isCallable]
+  rw [show (Value.lambda 1 [.req "a"] (.call (.ident "g") [.ident "a"]) [("g", C04Ex.lateG)]) = C04Ex.lateF from rfl,
+    e1, e2] at h1
+  cases h1
+
+/-! ##### examples for section 6 -/
+
+/-- hypotheses of `call_site_independent`: `f = (a) => [g(a), y, map([a], g)]` which captured
+    `y ↦ true` and `g = (t) => [t, y]` (which captured `y ↦ 1`) is hereditarily closed; the two
+    callers below rebind `y`, `g`, `a` -/
+example : ClosedV [] C04Ex.exF ∧ ClosedV [] C04Ex.exG ∧ ClosedL [] [Value.str "arg"] :=
+  ⟨C04Ex.exF_closed, C04Ex.exG_closed, by simp [ClosedL]⟩
+
+/-- and the conclusion, computed: from a caller that binds `y`, `g`, `a` to other things in one
+    frame, and from one that binds `g`, `a` and `y` in two frames, `f("arg")` is
+    `[["arg", 1], true, [["arg", 1]]]` -/
+example :
+    (callFn toyOps 20 C04Ex.exF C04Ex.exF [.str "arg"] 0
+      { root0 with env := [[("y", .null), ("g", .null), ("a", .null)]] }).1 =
+      .ok (.list [.list [.str "arg", .num F64.one], .bool true, .list [.list [.str "arg", .num F64.one]]]) ∧
+    (callFn toyOps 20 C04Ex.exF C04Ex.exF [.str "arg"] 0
+      { root0 with env := [[("g", .bool false), ("a", .num F64.one)], [("y", .str "caller")]] }).1 =
+      .ok (.list [.list [.str "arg", .num F64.one], .bool true, .list [.list [.str "arg", .num F64.one]]]) := by
+  constructor <;>
+  simp +decide [C04Ex.exF, C04Ex.exG, C04Ex.exBody, callFn, callHof, mapCalls, eval, evalItems, evalList, it,
+    checkArity, lambdaArity, Gen.Arity.canAccept, MAX_DEPTH, nameOf, bindParams, bindParams.go, root0, envGet,
+    lookupAL, insertAL, flattenSpreads, Value.isCallable, C04Ex.map_arity, isHof, arityOf]
+
+/-- the theorem applied to these two callers (all hypotheses discharged) -/
+example :
+    (callFn toyOps 20 C04Ex.exF C04Ex.exF [.str "arg"] 0
+      { root0 with env := [[("y", .null), ("g", .null), ("a", .null)]] }).1 =
+    (callFn toyOps 20 C04Ex.exF C04Ex.exF [.str "arg"] 0
+      { root0 with env := [[("g", .bool false), ("a", .num F64.one)], [("y", .str "caller")]] }).1 :=
+  call_site_independent_outcome toyOps 20 C04Ex.exF C04Ex.exF [.str "arg"] 0 _ _ rfl rfl
+    (by simp +decide [root0, envGet, lookupAL])
+    (by intro v h; simp +decide [root0, envGet, lookupAL] at h) C04Ex.exF_closed C04Ex.exF_closed
+    (by simp [ClosedL])
+
+/-- (D3), fixed (repo commit "a record shorthand whose name is spelled like a built-in is
+    captured"): found with this proof.  A plain identifier `sqrt` parses as the built-in, but the
+    record shorthand `{sqrt}` reads the VARIABLE `sqrt`; `collect_free_variables` listed it, the
+    capture loop skipped every name spelled like a built-in, so the inner function was created
+    without its bound free name and later read the caller's binding.  Blots source:
+      F = () => (((sqrt) => (() => {sqrt}))(1))()      -- F has no free names at all
+      F() --> was error "unknown identifier: sqrt" ;  G = (sqrt) => F() ; G(5) --> was {sqrt: 5}
+      mk = (sqrt) => (() => {sqrt}) ; g = mk(1) ; g() --> was an error, now {sqrt: 1}
+    Before the fix the theorem needed the extra hypothesis that no identifier / shorthand in a
+    body is spelled like a built-in.  Now both call sites give `{sqrt: 1}`, and `F` satisfies
+    the hypotheses of `call_site_independent`. -/
+example :
+    ClosedV [] C04Ex.d3F ∧
+    (callFn toyOps 20 C04Ex.d3F C04Ex.d3F [] 0 root0).1 = .ok (.record [("sqrt", .num F64.one)]) ∧
+    (callFn toyOps 20 C04Ex.d3F C04Ex.d3F [] 0 { root0 with env := [[("sqrt", .bool true)]] }).1 =
+      .ok (.record [("sqrt", .num F64.one)]) := by
+  refine ⟨?_, ?_, ?_⟩
+  · rw [C04Ex.d3F, closedV_lambda]
+    exact ⟨closedFn_of_freeVars (by decide) (by decide), by decide, by simp⟩
+  all_goals
+    simp +decide [C04Ex.d3F, C04Ex.d3Body, callFn, eval, evalItems, evalList, evalEntries, it, checkArity,
+      lambdaArity, Gen.Arity.canAccept, MAX_DEPTH, nameOf, bindParams, bindParams.go, root0, envGet, lookupAL,
+      insertAL, flattenSpreads, Value.isCallable, freeVars, freeVarsEntries, freeVarsEntry, freeVarsKey,
+      captureScope, LArg.name]
+
+/-- hypotheses of `created_function_is_closed` and `coincidence_closed` are satisfiable:
+    `(a) => a + y` created where `y ↦ 1`; `y` at depth 1 with `y` in the first frame -/
+example : noOutput (.bin .add (.ident "a") (.ident "y")) = true ∧
+    ClosedE [] [[("y", Value.num F64.one)]] ∧ InTop 1 [[("y", Value.num F64.one)], []] "y" ∧
+    Agree 1 [[("inputs", Value.null)]] [[("y", Value.num F64.one)], [("inputs", Value.null)]] "inputs" := by
+  refine ⟨by decide, ?_, by simp +decide [InTop, envGet, lookupAL],
+    by simp +decide [Agree, retailE, envGet, lookupAL]⟩
+  intro f hf
+  simp only [List.mem_singleton] at hf
+  subst hf
+  simp [ClosedR]
 
 end Blots.C04
